@@ -184,8 +184,12 @@ fn gen_neg_expr(t: &mut Tape, names: &[String]) -> Expr {
 pub fn gen_neg(t: &mut Tape, tree: &TreeSpec) -> Neg {
     let names = tree_names(tree);
     let mut one = |t: &mut Tape| -> Expr {
-        if t.chance(60) {
+        if t.chance(50) {
             gen_expr(t, &fs_glob_cfg(tree))
+        }
+        else if t.chance(90) {
+            // negations that hit existing entries exactly: `a/b/**`, `**/b/**`, `a/b`
+            crate::props::stacks::gen_not_expr(t, tree)
         }
         else {
             gen_neg_expr(t, &names)
@@ -256,8 +260,20 @@ impl Property for C03 {
                 Shape::Rooted | Shape::Dots(_) => Shape::Plain,
                 s => s,
             };
-            let glob = match t.below(3) {
+            let glob = match t.below(4) {
                 0 => vec![Tok::Tree { lead: false, trail: false }],
+                1 => {
+                    // a pruning glob: a selective first component, then anything
+                    let names = tree_names(&tree);
+                    let first = match t.below(3) {
+                        0 => vec![Tok::Zom { lazy: false }, Tok::lit(&t.pick(&names).chars().last().map(String::from).unwrap_or_default())],
+                        1 => vec![Tok::Alt(vec![vec![Tok::lit(&t.pick(&names))], vec![Tok::lit(&t.pick(&names))]])],
+                        _ => vec![Tok::One, Tok::Zom { lazy: false }],
+                    };
+                    let mut e = first;
+                    e.push(Tok::Tree { lead: true, trail: false });
+                    normalize(&e, true)
+                },
                 _ => gen_expr(t, &fs_glob_cfg(&tree)),
             };
             Under::Glob { shape, glob }
